@@ -234,7 +234,8 @@ def run_histories(hs, tag, timeout_ms=10000, shards=16):
         buckets[n % len(buckets)].append(hs[i])
     with ThreadPool(len(buckets)) as pool:
         res = pool.map(run_shard, [(i, b, workdir, timeout_ms) for i, b in enumerate(buckets)])
-    shutil.rmtree(workdir, ignore_errors=True)
+    if not os.environ.get("BSV_KEEP"):
+        shutil.rmtree(workdir, ignore_errors=True)
     return [r for rs in res for r in rs]
 
 # ---------------------------------------------------------------- known findings
